@@ -14,6 +14,7 @@ package redis
 //@ ghost var cur_uuid uuid.UUID // the identifier given to the connection object of this unit
 //@ ghost var pending int        // sockets accepted by an accept loop and neither closed nor handed to a connection goroutine
 //@ ghost var accept_failed bool // the last Accept of the accept loop returned an error
+//@ ghost var sel_id int          // the database id the connection had when its last request (or its creation) was done with it
 //@ ghost var authed bool        // an AUTH carrying exactly the configured password has succeeded on this connection
 
 //@ spec func srvOK(s ref) bool = s != nil && s.ServerConfig != nil && s.ServerConfig.Config != nil && s.ServerConfig.Config.params != nil && s.AuthManager != nil && authsOK(s.AuthManager) && s.ConnManager != nil && s.ConnManager.m != nil && s.ConnManager.mutex != nil && s.Tracer != nil && s.commandExecutors != nil && s.systemCommandHandler != nil
@@ -23,6 +24,7 @@ package redis
 
 //@ func newConnWith
 //@ assigns cur_uuid, alloc, clock_now
+//@ defines sel_id: result.id
 //@ ensures {C13,C08} result != nil && fresh(result) && result.id == 0 && !result.authrized && result.username == "" && result.password == "" && !result.hasPassword
 //@ ensures {C19} !result.isClosed && result.Conn == conn && result.tlsState == tlsState && result.Context == nil && result.uuid == cur_uuid
 
@@ -180,6 +182,7 @@ package redis
 
 //@ func (*Server).handleMessage
 //@ requires srvOK(server) && conn != nil && msg != nil && conn.Context != nil && span_depth >= 0 && root_open == 1
+//@ defines sel_id: conn.id
 //@ requires {C08} server.userCommandHandler != nil ==> true
 //@ assigns proto.Array.index, conn.id, conn.authrized, conn.username, conn.password, conn.hasPassword, comp:MD|Str|Str, comp:MV|Str|Str, H_*, A_calls, A_fail, span_depth, authed, clock_now, alloc
 //@ ensures {C20} span_depth == old(span_depth)
@@ -209,6 +212,8 @@ package redis
 //@   invariant {C19} !handlerConn.isClosed && !sock_closed && handlerConn != nil && handlerConn.Conn == conn && handlerConn.uuid == cur_uuid
 //@   invariant {C19} forall u uuid.UUID :: u != cur_uuid ==> dom(server.ConnManager.m, u) == old(dom(server.ConnManager.m, u))
 //@   invariant {C08} handlerConn.authrized ==> (!isPasswdRequired || authed)
+// between two requests nothing but the request handling itself touches the selected database
+//@   invariant {C13} handlerConn.id == sel_id
 //@   entry_assert {C09} tlsState != nil ==> A_fail == old(A_fail)
 //@   invariant srvOK(server) && parser != nil && parser.reader != nil && 0 <= S_pos && S_pos <= S_end
 //@   diverges
